@@ -163,12 +163,14 @@ def run_exhaustive(ctx):
 def rand_cases():
     @st.composite
     def case(draw):
-        k = draw(st.sampled_from([2, 3, 3, 4, 4, 5, 5, 6, 7, 8, 8, 9, 9, 10, 11]))
+        k = draw(st.sampled_from([2, 3, 3, 4, 4, 5, 5, 6, 7, 8, 8, 9, 9, 10, 11, 12, 12]))  # 12: the largest block that is computed exactly
         moves = draw(st.lists(st.sampled_from(["sh", "wf", "wf"]), min_size=k, max_size=k))
-        kind = draw(st.sampled_from(["int", "int-equalcol", "float", "int2", "int-large-near-equal"]))
+        kind = draw(st.sampled_from(["int", "int-equalcol", "float", "int2", "int-large-near-equal"] if k < 12 else ["int", "int2"]))
+        if k == 12:
+            moves = ["wf"] * k  # one coupled block of unequal weights
         # prefix length of the row sitting in plus slot s: >= s+1 (non-zero diagonal, the state after
         # sort_trajstate), optionally disturbed by the transpositions pick() applies before a later pick
-        pref = [draw(st.integers(s + 1, k)) for s in range(k)]
+        pref = [draw(st.integers(s + 1, k)) for s in range(k)] if k < 12 else [k] * k
         if kind == "float":
             wst = st.floats(1e-3, 1e6, allow_nan=False, allow_infinity=False) | st.sampled_from([1.0, 2.0, 0.5])
         elif kind == "int-large-near-equal":
@@ -381,6 +383,12 @@ def run(ctx):
         ctx.note("exhaustive_part_complete", bool(complete))
     run_property(ctx, "random", rand_cases, body_rand, ctx.pick(2000, 20000))
     run_property(ctx, "large", large_cases, body_large, ctx.pick(64, 640), shards=ctx.procs, shrink=not ctx.quick)
+    # the probabilities the sampler actually uses: P is cached between a pick and the next change of the state; over generated
+    # histories (the generator of C03-C05) the cached matrix must equal a fresh evaluation whenever it is looked at
+    from checks import histcheck
+
+    h_strategy, h_body, _ = histcheck.make("C02", {"C02cache": 1}, ("C02:",), lambda st, summ: bool(st.get("events_with>=2_in_flight") and st.get("accepted")))
+    run_property(ctx, "history", h_strategy, h_body, ctx.pick(300, 3000), shards=ctx.procs, shrink=not ctx.quick)
     if not getattr(ctx, "part", None) or ctx.part == "mc":
         for r in pmap(ctx, _mc_worker, [(ctx.pid, derive_seed(ctx.seed, "mc", i)) for i in range(ctx.pick(8, 32))]):
             ctx.merge(r)
@@ -396,5 +404,9 @@ def replay(ctx, data):
             body_large(ctx, data["case"])
         elif data["part"] == "mc":
             ctx.merge(_mc_worker((ctx.pid, data["seed"])))
+        elif data["part"] == "history":
+            from checks import histcheck
+
+            histcheck.make("C02", {"C02cache": 1}, ("C02:",), lambda st, summ: True)[1](ctx, data["case"])
     except Violation as v:
         ctx.violation(v.signature, v.message, data)
